@@ -16,8 +16,8 @@ ROOT = os.path.dirname(os.path.dirname(os.path.abspath(__file__)))
 HARNESS = os.path.join(ROOT, "vf", "ch", "c19_harness.py")
 PY = "/venv/bin/python"
 
-CONDITIONS = ["enable_expansion", "enable_none_rejected", "enable_accepted", "predicate_list", "predicate_special", "predicate_malformed",
-              "main_flags", "main_inout", "main_print", "parser_predicates", "parser_defaults", "parser_enable"]
+CONDITIONS = ["enable_expansion", "enable_none_rejected", "enable_accepted", "predicate_list", "predicate_keyword_name", "predicate_special", "predicate_malformed",
+              "main_flags", "main_inout", "main_print", "main_print_repeated", "parser_predicates", "parser_defaults", "parser_enable"]
 
 
 def env(maxlen):
@@ -92,6 +92,16 @@ PROGRAMS = [
     "{ shift(D,L) : pshift(D,L) } 1 :- day(D).\n#minimize { L,D : shift(D,L) }.\n{ s(P,V) } :- ps(P,V).\nr(P,X) :- g(P), X = #max { V : s(P,V) }.",
     "itemWeight(I,W,X) :- item(I,W), x(X).\nheavy(I) :- itemWeight(I,W,_), W > 3.\n#show heavy/1.",
     "p(1). p(1,2).\nq :- p(X). r :- p(X,Y).\n#show q/0.",
+    # statements that occur twice and re-entered program parts: every returned statement is printed, in order
+    "{ b ; d }. { e(1) }.\na :- b.\na :- b.\n#program extra.\nc :- d.\nc :- d.\n#program base.\nbig(X) :- e(X).\n#program extra.\nc2 :- c.",
+    # predicate names that contain the option keyword
+    "automaton(X,Y) :- edge(X,Y).\nauto(X) :- automaton(X,_), start(X).\nautostart(X) :- auto(X), not edge(X,X).",
+]
+# (program index, enable, input predicates, output predicates) that are always part of the run
+FIXED_CASES = [
+    (5, None, None, None), (5, ["none"], None, None), (5, ["all"], [], []),
+    (6, None, [("edge", 2), ("start", 1)], [("auto", 1)]), (6, None, None, [("automaton", 2)]), (6, None, [("auto", 1)], [("autostart", 1)]),
+    (6, ["none"], [("automaton", 2)], []), (6, None, "auto", [("autostart", 1)]),
 ]
 NINE = ["minmax_chains", "symmetry", "duplication", "cleanup", "unused", "sum_chains", "math", "inline", "projection"]
 EIGHT = [t for t in NINE if t != "duplication"]
@@ -156,6 +166,7 @@ def cli_cases(tier, seed):
         cases.append((0, None, None, None, lvl))
     if tier == "quick":
         cases = cases[:: max(1, len(cases) // 45)]
+    cases += [(pi, en, i, o, "ERROR") for pi, en, i, o in FIXED_CASES]
     return cases
 
 
